@@ -105,7 +105,7 @@ class Scn:
         self.bounds = dict(self.c.bound_dic)
         if set(self.bounds) != set(rng_):
             raise tlc.MachineryError("bounds of the configuration not taken over: %s" % self.bounds)
-        nd, nb, nm = 7, (0 if self.cfit else 3), 9
+        nd, nb, nm = (7 if self.cfit else 5), (0 if self.cfit else 2), 6
         npool = fac.pool_size
         dw = np.array([rng.uniform(0.5, 1.5) for _ in range(nd)])
         dw[rng.randrange(nd)] *= -0.5  # one negative data weight
@@ -158,6 +158,17 @@ def richardson(F, x, d, h):
     d1 = (np.asarray(F(x + h * d), dtype=float) - np.asarray(F(x - h * d), dtype=float)) / (2 * h)
     d2 = (np.asarray(F(x + h / 2 * d), dtype=float) - np.asarray(F(x - h / 2 * d), dtype=float)) / h
     return (4 * d2 - d1) / 3, d2, np.abs(d1 - d2)
+
+
+def richardson_adaptive(F, x, d, ref_scale):
+    """smaller steps until the two step sizes agree to FD_AGREE (relative to the larger of the result and ref_scale);
+    -> (extrapolated, well_conditioned)"""
+    ext = None
+    for h in (4e-4, 1e-4, 2.5e-5):
+        ext, _, dis = richardson(F, x, d, h)
+        if np.max(dis) <= FD_AGREE * max(float(np.max(np.abs(ext))), ref_scale, 1e-3):
+            return ext, True
+    return ext, False
 
 
 def fd_ok(a, b, scale):
@@ -282,7 +293,7 @@ def run(ctx):
 
     # ---------------------------------------------------------------- replay
     # stratified: every kind; every bound kind, floating set, constraint kind at least once
-    budget = 16 if quick else 70
+    budget = 13 if quick else 60
     chosen = choose(scenarios, rng, budget, quick)
     npoints = 1 if quick else 2
     stats = {"scenarios": 0, "points": 0, "fd_checks": 0, "ill_conditioned": 0, "identities": 0, "max_fd_rel": 0.0}
@@ -319,7 +330,9 @@ def choose(scenarios, rng, budget, quick):
         rng.shuffle(pools[k])
 
     def richness(s):
-        return sum(s[a] != b for a, b in (("bounds", "none"), ("constr", "none"), ("floating", "couplings"), ("share", "none"), ("batch", "single")))
+        r = sum(s[a] != b for a, b in (("bounds", "none"), ("constr", "none"), ("floating", "couplings"), ("share", "none")))
+        nrag = sum(c["batch"] == "ragged" for c in chosen)
+        return r + (1 if (s["batch"] == "ragged") == (nrag < (4 if quick else 25)) else 0)
 
     need = [("bounds", b) for b in ("coupling_two", "coupling_lower", "coupling_upper", "mass_two", "width_lower", "mixed")]
     need += [("constr", c) for c in ("head", "two_heads", "tied")] + [("floating", f) for f in ("mass", "mass_width")] + [("share", "tie"), ("batch", "ragged")]
@@ -339,7 +352,7 @@ def choose(scenarios, rng, budget, quick):
                 cand = [s for s in pools[k] if s[f] == val and s not in chosen]
                 if cand:
                     cand.sort(key=lambda s: -richness(s))
-                    chosen.append(cand[min(rep, len(cand) - 1)])
+                    chosen.append(cand[0] if len(chosen) % 2 == 0 else rng.choice(cand))  # alternately feature-rich and arbitrary
                     ki += t + 1
                     break
         rep += 1
@@ -431,10 +444,10 @@ def check_scenario(ctx, fac, sc, rng, npoints, v, stats, quick, with_eff):
             dirs += [np.eye(n)[i] * s.scale[i] for i in range(n)]
         # ---- gradient: g.d against the derivative of the reported NLL along d
         for d in dirs:
-            ext, d2, dis = richardson(V, x, d, 4e-4)
             gd = float(g1 @ d)
             sc_g = float(np.abs(g1) @ np.abs(d))
-            if dis > FD_AGREE * max(abs(ext), sc_g, 1e-3):
+            ext, well = richardson_adaptive(V, x, d, sc_g)
+            if not well:
                 stats["ill_conditioned"] += 1
                 continue
             stats["fd_checks"] += 1
@@ -471,10 +484,10 @@ def check_scenario(ctx, fac, sc, rng, npoints, v, stats, quick, with_eff):
             if hh.shape != (n, n) or not ident_ok(hh, hh.T, float(np.max(np.abs(hh))) + 1e-9):
                 report("nll_grad_hessian", "Hessian not a symmetric n x n matrix", "shape", {"shape": list(hh.shape)})
                 hess_exc = True
-        for d in dirs[: (2 if quick else 3)]:
-            ext, d2, dis = richardson(grad, x, d, 4e-4)
+        for d in dirs[: (1 if quick else 3)]:
+            ext, well = richardson_adaptive(grad, x, d, 0.0)
             sc_h = float(np.max(np.abs(ext))) + 1e-9
-            if np.max(dis) > FD_AGREE * max(sc_h, 1e-3):
+            if not well:
                 stats["ill_conditioned"] += 1
                 continue
             dyd = dydx(s, x)
@@ -546,13 +559,14 @@ def check_scenario(ctx, fac, sc, rng, npoints, v, stats, quick, with_eff):
                 ctx.count(1)
                 if not ident_ok(np.array(a[2]), np.array(b[2]), float(np.max(np.abs(np.array(b[2])))) + 1e-9):
                     report("nll_grad_hessian", "depends on the batch size", "batch", {"max_diff": float(np.max(np.abs(np.array(a[2]) - np.array(b[2]))))})
-                d = dirs[0]
-                a = quiet(fr.grad_hessp, y, d)
-                b = quiet(fcn.grad_hessp, y, d)
-                stats["identities"] += 1
-                ctx.count(1)
-                if not ident_ok(np.array(a[1]), np.array(b[1]), float(np.max(np.abs(np.array(b[1])))) + 1e-9):
-                    report("grad_hessp", "depends on the batch size", "batch", {"max_diff": float(np.max(np.abs(np.array(a[1]) - np.array(b[1]))))})
+                if not quick:
+                    d = dirs[0]
+                    a = quiet(fr.grad_hessp, y, d)
+                    b = quiet(fcn.grad_hessp, y, d)
+                    stats["identities"] += 1
+                    ctx.count(1)
+                    if not ident_ok(np.array(a[1]), np.array(b[1]), float(np.max(np.abs(np.array(b[1])))) + 1e-9):
+                        report("grad_hessp", "depends on the batch size", "batch", {"max_diff": float(np.max(np.abs(np.array(a[1]) - np.array(b[1]))))})
             except Exception as e:  # noqa: BLE001
                 report("nll_grad_hessian", "raises for batch 3", "batch:raise", {"error": repr(e)[:1500]})
         if not sampled:
